@@ -140,6 +140,7 @@ type Cfg struct {
 	CancelMs  []int64 `json:"cancel_ms,omitempty"` // environment choice of the cancel delay
 	Closable  bool    `json:"closable"`
 	WarmUp    bool    `json:"warmup"`
+	ProvBuf   int     `json:"prov_buf,omitempty"` // the provider queues this many items ahead (its Run returns early)
 	SkewUs    int64   `json:"skew_us,omitempty"` // every shot ends this many microseconds before its nominal duration
 	Fault2    Fault   `json:"fault2,omitempty"`  // a second component failing in the same run
 	WarmMs    int64   `json:"warm_ms,omitempty"` // the warm-up takes this long and does not look at the context
@@ -153,7 +154,7 @@ type Cfg struct {
 
 func (c Cfg) Name() string {
 	return fmt.Sprintf("%s|startup=%s|rps=%s|perinst=%v|ammo=%d|discard=%v|shot=%v|fault=%s@%d|cancel=%v%v|pools=%d|closable=%v|warm=%v|adv=%v|otherlong=%v",
-		c.Prop, c.Startup, c.RPS, c.PerInst, c.Ammo, c.Discard, c.ShotMs, c.Fault.Kind, c.Fault.Pos, c.Cancel, c.CancelMs, c.Pools, c.Closable, c.WarmUp, c.Advance, c.OtherLong) + map[bool]string{true: "|cause=deadline", false: ""}[c.CauseDeadline] + map[bool]string{true: fmt.Sprintf("|warmms=%d", c.WarmMs), false: ""}[c.WarmMs > 0] + map[bool]string{true: fmt.Sprintf("|fault2=%s@%d", c.Fault2.Kind, c.Fault2.Pos), false: ""}[c.Fault2.Kind != ""] + map[bool]string{true: fmt.Sprintf("|skew=%dus", c.SkewUs), false: ""}[c.SkewUs > 0]
+		c.Prop, c.Startup, c.RPS, c.PerInst, c.Ammo, c.Discard, c.ShotMs, c.Fault.Kind, c.Fault.Pos, c.Cancel, c.CancelMs, c.Pools, c.Closable, c.WarmUp, c.Advance, c.OtherLong) + map[bool]string{true: "|cause=deadline", false: ""}[c.CauseDeadline] + map[bool]string{true: fmt.Sprintf("|warmms=%d", c.WarmMs), false: ""}[c.WarmMs > 0] + map[bool]string{true: fmt.Sprintf("|fault2=%s@%d", c.Fault2.Kind, c.Fault2.Pos), false: ""}[c.Fault2.Kind != ""] + map[bool]string{true: fmt.Sprintf("|skew=%dus", c.SkewUs), false: ""}[c.SkewUs > 0] + map[bool]string{true: fmt.Sprintf("|provbuf=%d", c.ProvBuf), false: ""}[c.ProvBuf > 0]
 }
 
 type poolState struct {
@@ -183,7 +184,7 @@ type run struct {
 func (r *run) newWorld() *World {
 	c := r.cfg
 	w := &World{T0: r.t0, Items: c.Ammo, Acquired: map[int]int{}, ProvFailAt: -1, GunFailAt: -1, BindFailAt: -1,
-		PanicAtShot: -1, SchedFailAt: -1, Tokens: map[int]*Token{}, Closable: c.Closable, WarmUp: c.WarmUp, WarmDur: ms(c.WarmMs), Cause: r.cause, CauseBare: c.CauseDeadline}
+		PanicAtShot: -1, SchedFailAt: -1, Tokens: map[int]*Token{}, Closable: c.Closable, WarmUp: c.WarmUp, WarmDur: ms(c.WarmMs), ProvBuf: c.ProvBuf, Cause: r.cause, CauseBare: c.CauseDeadline}
 	for _, m := range c.ShotMs {
 		d := ms(m)
 		if d > 0 && c.SkewUs > 0 {
@@ -670,10 +671,21 @@ func (r *run) checkC12(end, msg string) error {
 	}
 	// all tokens result in instances unless cut short
 	cut := r.cancelled || r.cfg.Fault.Kind != ""
-	if r.cfg.Ammo >= 0 && w.AcquireN >= r.cfg.Ammo {
-		cut = true // ammo ran out
-	}
 	need := len(off)
+	if r.cfg.Ammo >= 0 && w.AcquireN >= r.cfg.Ammo {
+		// the ammo ran out: that ends instance start from the moment an instance found it exhausted,
+		// not from the moment the provider had merely finished queueing it
+		if w.OutAt.IsZero() {
+			cut = true
+		} else {
+			need = 0
+			for _, o := range off {
+				if r.t0.Add(o).Before(w.OutAt) {
+					need++
+				}
+			}
+		}
+	}
 	if !r.cfg.PerInst && !r.cfg.RPS.unknown() {
 		toks, _ := r.cfg.RPS.tokens()
 		if len(w.TokenLog) >= len(toks) {
@@ -685,11 +697,14 @@ func (r *run) checkC12(end, msg string) error {
 					last = tk.DrawAt
 				}
 			}
-			need = 0
+			n2 := 0
 			for _, o := range off {
 				if r.t0.Add(o).Before(last) {
-					need++
+					n2++
 				}
+			}
+			if n2 < need {
+				need = n2
 			}
 		}
 	}
